@@ -419,28 +419,39 @@ func adjustForEsc(b []byte, k, max int) int {
 	if k >= len(b) {
 		return k
 	}
-	// find an ESC at position < k whose sequence extends beyond k
-	for i := k - 1; i >= 0 && i >= k-16; i-- {
-		if b[i] == 0x1b {
-			end := EscEnd(b, i)
-			if end < 0 {
-				end = len(b)
-			}
+	// walk the sequences forward from a little before k (an ESC can also be the second last byte
+	// of a sequence: the string terminator of an operating system command), and see whether one
+	// of them spans k
+	from := k - 3*MaxANSILen
+	if from < 0 {
+		from = 0
+	}
 
-			if end > k {
-				if end <= max {
-					return end
-				}
-
-				if i > 0 {
-					return i
-				}
-
-				return k // cannot honour; generators keep read sizes >= longest escape
-			}
-
-			break
+	for i := from; i < k; i++ {
+		if b[i] != 0x1b {
+			continue
 		}
+
+		end := EscEnd(b, i)
+		if end < 0 {
+			end = len(b)
+		}
+
+		if end <= k {
+			i = end - 1
+
+			continue
+		}
+
+		if end <= max {
+			return end
+		}
+
+		if i > 0 {
+			return i
+		}
+
+		return k // cannot honour; generators keep read sizes >= longest escape
 	}
 
 	return k
@@ -473,10 +484,18 @@ func EscEnd(b []byte, i int) int {
 
 		return -1
 	case ']':
-		// operating system command: up to and including BEL
+		// operating system command: up to and including BEL or ST (ESC \)
 		for j := i + 2; j < len(b); j++ {
 			if b[j] == 0x07 {
 				return j + 1
+			}
+
+			if b[j] == 0x1b {
+				if j+1 < len(b) {
+					return j + 2
+				}
+
+				return -1
 			}
 		}
 
